@@ -323,6 +323,11 @@ func GenBase(r *Rand, p *Profile) *h.Scenario {
 		}
 		tryAdd := func() {
 			if len(pending) > 0 && liveCount() > 0 {
+				// a successor created after its predecessor has finished is the open finding F4b
+				// (C17 owns that history): elsewhere such a bar is created as an ordinary one
+				if q := sc.Bars[pending[0]].QueueAfter; q >= 0 && bg[q].model.Terminal() {
+					sc.Bars[pending[0]].QueueAfter = -1
+				}
 				ops = append(ops, h.Op{K: h.OpAdd, Bar: pending[0]})
 				bg[pending[0]].added = true
 				pending = pending[1:]
